@@ -548,6 +548,10 @@ def check_run(proj: dict, inv: dict, evs: T.Sequence[dict], testlog: T.Optional[
             if res not in exp:
                 V.append((f'misclassified:{rc_class(t, it)}:expected-{"|".join(sorted(exp))}:got-{res}',
                           {'test': tid, 'iteration': it, 'spec': t, 'result': res, 'returncode': e.get('returncode')}))
+            if max(t.get('out', 0), t.get('err', 0)) > 65536:
+                cnt('cov:output_over_64KiB_without_newline_' + ('stdout' if t.get('out') else 'stderr'))
+            if t['protocol'] == 'tap' and t.get('desc') in ('hash', 'sharp') and tap_has_result_line(t):
+                cnt('cov:tap_description_with_hash_' + ('failing' if 'notok' in (t['tap'] or '') else 'passing'))
             if exit_of(t, it) < 0:
                 cnt('cov:death_by_signal_' + t['protocol'])
             if t['protocol'] == 'tap' and exit_of(t, it) != 0 and not tap_has_result_line(t):
